@@ -255,6 +255,8 @@ pub(crate) enum ExprErrorKind {
     DivisionByZero,
     #[error("The variable {0} has not been assigned a value")]
     UnknownVariable(String),
+    #[error("The function {0} is not implemented")]
+    FunctionNotImplemented(&'static str),
 }
 
 /// Could not construct static iterator
